@@ -96,3 +96,8 @@ def run(rep, program: Program, tier: str) -> None:
     from . import c07
 
     rep.isolate(c07.rule_r5, rep, program, prop=PROP, rule="R4")
+    # integrators that are not built from component flows (implicit midpoint) evaluate the total derivative methods:
+    # they integrate the system's own Hamiltonian only if those equal the sums of the component derivatives (shared with C05-R1)
+    from . import c05
+
+    rep.isolate(c05.rule_r1, rep, program, prop=PROP, rule="R5")
